@@ -89,3 +89,28 @@ Print Assumptions C03_prune_states_frame.
 Print Assumptions C03_prune_states_only_clears.
 Print Assumptions C03_prune_states_terminates.
 Print Assumptions C03_solve_no_dead.
+
+(** exact rationals: the renormalised weights sum to 1; and the pinned tree's scan is refuted *)
+From Coq Require Import QArith.
+From CR Require Import Model.Heap Proofs.ReachQ Proofs.C03Q.
+
+Theorem C03_renormalised_sum_one : forall (al : list (@Game.trans Q)),
+  (0 < sumw al)%Q ->
+  (sumw (map (fun t => mkT (act t) (div qops (pr t) (surv_total qops al)) (dst t)) al) == 1)%Q.
+Proof. exact renormalised_sum_one. Qed.
+
+(* Defect D1 of the pinned tree (repaired by a fix: commit): removing from the list while iterating
+   over it keeps the second of two adjacent dead successors, and raises
+   ValueError('list.remove(x): x not in list') for two separated ones. The repaired pipeline conditions both correctly. *)
+Theorem C03_unfixed_refuted :
+  (exists r, solve_orig d1_adjacent = Ok r /\
+             nth 0 (r_pruned r) [] = [mkT "" (1#3)%Q 2; mkT "" (2#3)%Q 3] /\ nth 2 (r_probs r) 1%Q = 0%Q) /\
+  solve_orig d1_separated = ValueErr msg_remove /\
+  (exists r, solve qops d1_adjacent true = Ok r /\ nth 0 (r_pruned r) [] = [mkT "" 1%Q 3]) /\
+  (exists r, solve qops d1_separated true = Ok r /\ nth 0 (r_pruned r) [] = [mkT "" 1%Q 3]).
+Proof.
+  split; [exact d1_adjacent_keeps_dead|]. split; [exact d1_separated_crashes|]. exact d1_repaired.
+Qed.
+
+Print Assumptions C03_renormalised_sum_one.
+Print Assumptions C03_unfixed_refuted.
